@@ -250,6 +250,172 @@ def drop_walk(I, st, v, seen=None):
 # models
 # --------------------------------------------------------------------------
 
+def add_generic_models(add):
+    """std functions over concrete containers, iterator adaptors with closures (shared by the protocol and parser executors)"""
+    # --- a wider closed list of std functions over concrete containers (so that small rewrites of build() stay decidable)
+    def items_of(v):
+        v = deref(v)
+        if isinstance(v, VecV):
+            return v.items
+        if isinstance(v, list):
+            return v
+        raise Unsupported("slice view of %s" % type(v).__name__)
+
+    def sl_first(I, st, a):
+        it = items_of(a[0])
+        return some(Ref(it, 0)) if it else none()
+    add(r"core::slice::<impl \[.*\]>::first", sl_first, "slice::first")
+
+    def sl_last(I, st, a):
+        it = items_of(a[0])
+        return some(Ref(it, len(it) - 1)) if it else none()
+    add(r"core::slice::<impl \[.*\]>::last", sl_last, "slice::last")
+
+    def sl_get(I, st, a):
+        it = items_of(a[0])
+        i = a[1]
+        if not isinstance(i, int):
+            raise Unsupported("slice::get with a non-integer index")
+        return some(Ref(it, i)) if i < len(it) else none()
+    add(r"core::slice::<impl \[.*\]>::get::<usize>", sl_get, "slice::get(i)")
+    add(r"core::slice::<impl \[.*\]>::len", lambda I, st, a: len(items_of(a[0])), "slice::len")
+    add(r"core::slice::<impl \[.*\]>::is_empty", lambda I, st, a: len(items_of(a[0])) == 0, "slice::is_empty")
+
+    def vec_pop(I, st, a):
+        it = items_of(a[0])
+        return some(it.pop()) if it else none()
+    add(r"Vec::<.*>::pop", vec_pop, "Vec::pop")
+
+    def vec_remove(I, st, a):
+        it = items_of(a[0])
+        if not isinstance(a[1], int) or a[1] >= len(it):
+            raise Panic("removal index out of bounds")
+        return it.pop(a[1])
+    add(r"Vec::<.*>::(remove|swap_remove)", vec_remove, "Vec::remove(i)")
+
+    def structural(v):
+        v = deref(v)
+        if isinstance(v, (bool, int, Tk)):
+            return v
+        if isinstance(v, Str):
+            if not (isinstance(v.code, tuple) and v.code[0] == "lit"):
+                raise Unsupported("structural comparison of a string whose text is symbolic")
+            return ("str", v.code)
+        if isinstance(v, Enum):
+            return ("enum", v.ty, v.idx, tuple(structural(x) for x in v.f))
+        if isinstance(v, Agg):
+            if v.ty in ("Sender", "Receiver"):
+                raise Unsupported("comparison of channel endpoints")
+            return ("agg", tuple(structural(x) for x in v.f))
+        if isinstance(v, VecV):
+            return ("vec", tuple(structural(x) for x in v.items))
+        if v is UNIT:
+            return ()
+        raise Unsupported("structural comparison of %s" % type(v).__name__)
+    add(r"<.* as PartialEq(<.*>)?>::eq", lambda I, st, a: structural(a[0]) == structural(a[1]), "PartialEq::eq on concrete values (structural)")
+    add(r"<.* as PartialEq(<.*>)?>::ne", lambda I, st, a: structural(a[0]) != structural(a[1]), "PartialEq::ne on concrete values (structural)")
+
+    def gen_clone(I, st, a):
+        v = deref(a[0])
+        structural(v)           # (refuses channel endpoints and anything it cannot see through)
+        return copy.deepcopy(v)
+    add(r"<(FileResolution|WorkOption|std::string::String|Vec<.*>|std::option::Option<.*>|usize|bool) as Clone>::clone", gen_clone, "Clone::clone on plain data (deep copy)")
+
+    def opt_unwrap_or(I, st, a):
+        return a[0].f[0] if a[0].idx == 1 else a[1]
+    add(r"(std::option::)?Option::<.*>::unwrap_or", opt_unwrap_or, "Option::unwrap_or")
+
+    def opt_expect(I, st, a):
+        if a[0].idx == 0:
+            raise Panic("Option::expect on None")
+        return a[0].f[0]
+    add(r"(std::option::)?Option::<.*>::expect", opt_expect, "Option::expect panics on None")
+    add(r"(std::option::)?Option::<&.*>::(cloned|copied)", lambda I, st, a: some(copy.deepcopy(deref(a[0].f[0]))) if a[0].idx == 1 else none(), "Option<&T>::cloned / copied")
+
+    def res_unwrap(I, st, a):
+        if a[0].idx != 0:
+            raise Panic("called `Result::unwrap()` on an `Err` value")
+        return a[0].f[0]
+    add(r"(std::result::)?Result::<.*>::(unwrap|expect)", res_unwrap, "Result::unwrap / expect panic on Err")
+    add(r"(std::result::)?Result::<.*>::is_ok", lambda I, st, a: deref(a[0]).idx == 0, "Result::is_ok")
+    add(r"(std::result::)?Result::<.*>::is_err", lambda I, st, a: deref(a[0]).idx == 1, "Result::is_err")
+    add(r"(std::result::)?Result::<.*>::ok", lambda I, st, a: some(a[0].f[0]) if a[0].idx == 0 else none(), "Result::ok")
+
+    def it_rev(I, st, a):
+        it = a[0]
+        if isinstance(it, IterV) and it.kind == "list":
+            return IterV("list", list(reversed(it.src[it.pos:])))
+        if isinstance(it, IterV) and it.kind == "slice":
+            return IterV("list", [Ref(it.src.items, i) for i in reversed(range(it.pos, len(it.src.items)))])
+        raise Unsupported("rev() of this iterator")
+    add(r"<.* as Iterator>::rev", it_rev, "Iterator::rev over a vector / slice iterator")
+
+    def it_enum_any(I, st, a):
+        it = a[0]
+        if isinstance(it, IterV) and it.kind == "list":
+            return IterV("list", [Agg([i, x]) for i, x in enumerate(it.src[it.pos:])])
+        if isinstance(it, IterV) and it.kind == "slice":
+            return IterV("enum", None, inner=it)
+        raise Unsupported("enumerate() of this iterator")
+    add(r"<.* as Iterator>::enumerate", it_enum_any, "Iterator::enumerate over a vector / slice iterator")
+
+    def it_zip(I, st, a):
+        def lst(it):
+            it = IterV("list", list(it.items)) if isinstance(it, VecV) else (IterV("slice", it.get()) if isinstance(it, Ref) and isinstance(it.get(), VecV) else it)
+            if isinstance(it, IterV) and it.kind == "list":
+                return list(it.src[it.pos:])
+            if isinstance(it, IterV) and it.kind == "slice":
+                return [Ref(it.src.items, i) for i in range(it.pos, len(it.src.items))]
+            raise Unsupported("zip() of this iterator")
+        x, y = lst(a[0]), lst(a[1])
+        return IterV("list", [Agg([p, q]) for p, q in zip(x, y)])
+    add(r"<.* as Iterator>::zip::<.*>", it_zip, "Iterator::zip of vector / slice iterators")
+    add(r"<.* as Iterator>::count", lambda I, st, a: len(a[0].src[a[0].pos:]) if a[0].kind == "list" else len(a[0].src.items) - a[0].pos, "Iterator::count")
+
+    def vec_extend(I, st, a):
+        v = deref(a[0])
+        it = a[1]
+        if isinstance(it, VecV):
+            v.items.extend(it.items)
+        elif isinstance(it, IterV) and it.kind == "list":
+            v.items.extend(it.src[it.pos:])
+        else:
+            raise Unsupported("Vec::extend from this iterator")
+        return UNIT
+    add(r"<Vec<.*> as Extend<.*>>::extend::<.*>", vec_extend, "Vec::extend from a vector / its iterator")
+
+    def into_iter(I, st, a):
+        v = a[0]
+        if isinstance(v, VecV):
+            return IterV("list", list(v.items))
+        if isinstance(v, Ref) and isinstance(v.get(), VecV):
+            return IterV("slice", v.get())
+        return v
+    add(r"<.* as IntoIterator>::into_iter", into_iter, "IntoIterator::into_iter for Vec (by value), &Vec, ranges and iterators")
+
+    # --- iterator adaptors with closures (ChannelPack::new)
+    def it_map(I, st, a):
+        return IterV("map", None, inner=a[0], end=a[1])
+    add(r"<.* as Iterator>::map::<.*>", it_map, "Iterator::map (lazy)")
+
+    def collect(I, st, a):
+        it = a[0]
+        if not (isinstance(it, IterV) and it.kind == "map"):
+            raise Unsupported("collect on a non-map iterator")
+        inner = it.inner
+        items = inner.src[inner.pos:] if inner.kind == "list" else None
+        if items is None:
+            raise Unsupported("collect over iterator kind %s" % inner.kind)
+        clo = it.end
+        loc = re.search(r"\{closure@([^}]*)\}", clo.ty).group(1)
+        fname = I.closure_fns.get(loc)
+        if not items:
+            return VecV([])
+        cell = [clo]
+        return CallMir(fname, [Ref(cell, 0), items[0]], {"kind": "collect", "fname": fname, "cell": cell, "rest": list(items[1:]), "out": []})
+    add(r"<(std::iter::)?Map<.*> as Iterator>::collect::<.*>", collect, "Iterator::collect over map(closure)")
+
+
 def build_models(plan, opts):
     M, used = sort_engine.build_models()        # containers, iterators, Option, ? operator, vec![x]
     extra = []
@@ -471,166 +637,7 @@ def build_models(plan, opts):
         return UNIT
     add(r"(std::mem::)?drop::<.*>", mem_drop, "mem::drop")
 
-    # --- a wider closed list of std functions over concrete containers (so that small rewrites of build() stay decidable)
-    def items_of(v):
-        v = deref(v)
-        if isinstance(v, VecV):
-            return v.items
-        if isinstance(v, list):
-            return v
-        raise Unsupported("slice view of %s" % type(v).__name__)
-
-    def sl_first(I, st, a):
-        it = items_of(a[0])
-        return some(Ref(it, 0)) if it else none()
-    add(r"core::slice::<impl \[.*\]>::first", sl_first, "slice::first")
-
-    def sl_last(I, st, a):
-        it = items_of(a[0])
-        return some(Ref(it, len(it) - 1)) if it else none()
-    add(r"core::slice::<impl \[.*\]>::last", sl_last, "slice::last")
-
-    def sl_get(I, st, a):
-        it = items_of(a[0])
-        i = a[1]
-        if not isinstance(i, int):
-            raise Unsupported("slice::get with a non-integer index")
-        return some(Ref(it, i)) if i < len(it) else none()
-    add(r"core::slice::<impl \[.*\]>::get::<usize>", sl_get, "slice::get(i)")
-    add(r"core::slice::<impl \[.*\]>::len", lambda I, st, a: len(items_of(a[0])), "slice::len")
-    add(r"core::slice::<impl \[.*\]>::is_empty", lambda I, st, a: len(items_of(a[0])) == 0, "slice::is_empty")
-
-    def vec_pop(I, st, a):
-        it = items_of(a[0])
-        return some(it.pop()) if it else none()
-    add(r"Vec::<.*>::pop", vec_pop, "Vec::pop")
-
-    def vec_remove(I, st, a):
-        it = items_of(a[0])
-        if not isinstance(a[1], int) or a[1] >= len(it):
-            raise Panic("removal index out of bounds")
-        return it.pop(a[1])
-    add(r"Vec::<.*>::(remove|swap_remove)", vec_remove, "Vec::remove(i)")
-
-    def structural(v):
-        v = deref(v)
-        if isinstance(v, (bool, int, Tk)):
-            return v
-        if isinstance(v, Str):
-            return ("str", v.code)
-        if isinstance(v, Enum):
-            return ("enum", v.ty, v.idx, tuple(structural(x) for x in v.f))
-        if isinstance(v, Agg):
-            if v.ty in ("Sender", "Receiver"):
-                raise Unsupported("comparison of channel endpoints")
-            return ("agg", tuple(structural(x) for x in v.f))
-        if isinstance(v, VecV):
-            return ("vec", tuple(structural(x) for x in v.items))
-        if v is UNIT:
-            return ()
-        raise Unsupported("structural comparison of %s" % type(v).__name__)
-    add(r"<.* as PartialEq(<.*>)?>::eq", lambda I, st, a: structural(a[0]) == structural(a[1]), "PartialEq::eq on concrete values (structural)")
-    add(r"<.* as PartialEq(<.*>)?>::ne", lambda I, st, a: structural(a[0]) != structural(a[1]), "PartialEq::ne on concrete values (structural)")
-
-    def gen_clone(I, st, a):
-        v = deref(a[0])
-        structural(v)           # (refuses channel endpoints and anything it cannot see through)
-        return copy.deepcopy(v)
-    add(r"<(FileResolution|WorkOption|std::string::String|Vec<.*>|std::option::Option<.*>|usize|bool) as Clone>::clone", gen_clone, "Clone::clone on plain data (deep copy)")
-
-    def opt_unwrap_or(I, st, a):
-        return a[0].f[0] if a[0].idx == 1 else a[1]
-    add(r"(std::option::)?Option::<.*>::unwrap_or", opt_unwrap_or, "Option::unwrap_or")
-
-    def opt_expect(I, st, a):
-        if a[0].idx == 0:
-            raise Panic("Option::expect on None")
-        return a[0].f[0]
-    add(r"(std::option::)?Option::<.*>::expect", opt_expect, "Option::expect panics on None")
-    add(r"(std::option::)?Option::<&.*>::(cloned|copied)", lambda I, st, a: some(copy.deepcopy(deref(a[0].f[0]))) if a[0].idx == 1 else none(), "Option<&T>::cloned / copied")
-
-    def res_unwrap(I, st, a):
-        if a[0].idx != 0:
-            raise Panic("called `Result::unwrap()` on an `Err` value")
-        return a[0].f[0]
-    add(r"(std::result::)?Result::<.*>::(unwrap|expect)", res_unwrap, "Result::unwrap / expect panic on Err")
-    add(r"(std::result::)?Result::<.*>::is_ok", lambda I, st, a: deref(a[0]).idx == 0, "Result::is_ok")
-    add(r"(std::result::)?Result::<.*>::is_err", lambda I, st, a: deref(a[0]).idx == 1, "Result::is_err")
-    add(r"(std::result::)?Result::<.*>::ok", lambda I, st, a: some(a[0].f[0]) if a[0].idx == 0 else none(), "Result::ok")
-
-    def it_rev(I, st, a):
-        it = a[0]
-        if isinstance(it, IterV) and it.kind == "list":
-            return IterV("list", list(reversed(it.src[it.pos:])))
-        if isinstance(it, IterV) and it.kind == "slice":
-            return IterV("list", [Ref(it.src.items, i) for i in reversed(range(it.pos, len(it.src.items)))])
-        raise Unsupported("rev() of this iterator")
-    add(r"<.* as Iterator>::rev", it_rev, "Iterator::rev over a vector / slice iterator")
-
-    def it_enum_any(I, st, a):
-        it = a[0]
-        if isinstance(it, IterV) and it.kind == "list":
-            return IterV("list", [Agg([i, x]) for i, x in enumerate(it.src[it.pos:])])
-        if isinstance(it, IterV) and it.kind == "slice":
-            return IterV("enum", None, inner=it)
-        raise Unsupported("enumerate() of this iterator")
-    add(r"<.* as Iterator>::enumerate", it_enum_any, "Iterator::enumerate over a vector / slice iterator")
-
-    def it_zip(I, st, a):
-        def lst(it):
-            it = IterV("list", list(it.items)) if isinstance(it, VecV) else (IterV("slice", it.get()) if isinstance(it, Ref) and isinstance(it.get(), VecV) else it)
-            if isinstance(it, IterV) and it.kind == "list":
-                return list(it.src[it.pos:])
-            if isinstance(it, IterV) and it.kind == "slice":
-                return [Ref(it.src.items, i) for i in range(it.pos, len(it.src.items))]
-            raise Unsupported("zip() of this iterator")
-        x, y = lst(a[0]), lst(a[1])
-        return IterV("list", [Agg([p, q]) for p, q in zip(x, y)])
-    add(r"<.* as Iterator>::zip::<.*>", it_zip, "Iterator::zip of vector / slice iterators")
-    add(r"<.* as Iterator>::count", lambda I, st, a: len(a[0].src[a[0].pos:]) if a[0].kind == "list" else len(a[0].src.items) - a[0].pos, "Iterator::count")
-
-    def vec_extend(I, st, a):
-        v = deref(a[0])
-        it = a[1]
-        if isinstance(it, VecV):
-            v.items.extend(it.items)
-        elif isinstance(it, IterV) and it.kind == "list":
-            v.items.extend(it.src[it.pos:])
-        else:
-            raise Unsupported("Vec::extend from this iterator")
-        return UNIT
-    add(r"<Vec<.*> as Extend<.*>>::extend::<.*>", vec_extend, "Vec::extend from a vector / its iterator")
-
-    def into_iter(I, st, a):
-        v = a[0]
-        if isinstance(v, VecV):
-            return IterV("list", list(v.items))
-        if isinstance(v, Ref) and isinstance(v.get(), VecV):
-            return IterV("slice", v.get())
-        return v
-    add(r"<.* as IntoIterator>::into_iter", into_iter, "IntoIterator::into_iter for Vec (by value), &Vec, ranges and iterators")
-
-    # --- iterator adaptors with closures (ChannelPack::new)
-    def it_map(I, st, a):
-        return IterV("map", None, inner=a[0], end=a[1])
-    add(r"<.* as Iterator>::map::<.*>", it_map, "Iterator::map (lazy)")
-
-    def collect(I, st, a):
-        it = a[0]
-        if not (isinstance(it, IterV) and it.kind == "map"):
-            raise Unsupported("collect on a non-map iterator")
-        inner = it.inner
-        items = inner.src[inner.pos:] if inner.kind == "list" else None
-        if items is None:
-            raise Unsupported("collect over iterator kind %s" % inner.kind)
-        clo = it.end
-        loc = re.search(r"\{closure@([^}]*)\}", clo.ty).group(1)
-        fname = I.closure_fns.get(loc)
-        if not items:
-            return VecV([])
-        cell = [clo]
-        return CallMir(fname, [Ref(cell, 0), items[0]], {"kind": "collect", "fname": fname, "cell": cell, "rest": list(items[1:]), "out": []})
-    add(r"<(std::iter::)?Map<.*> as Iterator>::collect::<.*>", collect, "Iterator::collect over map(closure)")
+    add_generic_models(add)
 
     # --- the per-thread work, with symbolic outcomes
     def leaf_model(I, st, a):
@@ -965,18 +972,24 @@ def plans_for(tier):
     P.append(Plan([(1, [L(0)]), (1, [Pr(0, 0)]), (1, [Pr(0, 0)])], 1))                          # fan-out of a rule
     P.append(Plan([(1, []), (1, []), (1, [])], 0))                                              # disconnected
     if tier == "thorough":
-        srcs_opts = lambda k: [[]] + [[x] for x in cand(k)] + [[x, y] for x, y in itertools.combinations(cand(k), 2)]
-
         def cand(k):
             return [L(0), L(1)] + [Pr(i, s) for i in range(k) for s in (0, 1)]
-        for nts in itertools.product((1, 2), repeat=3):
-            for s0 in srcs_opts(0):
-                for s1 in srcs_opts(1):
-                    for s2 in srcs_opts(2):
-                        ok = all(x[0] == "L" or x[2] < nts[x[1]] for x in s0 + s1 + s2)
-                        if ok and len(s0) + len(s1) + len(s2) <= 4:
-                            P.append(Plan([(nts[0], s0), (nts[1], s1), (nts[2], s2)], 2))
+
+        def srcs_opts(k):       # ordered source lists: the order in which a rule listens matters
+            return [[]] + [[x] for x in cand(k)] + [[x, y] for x, y in itertools.permutations(cand(k), 2)]
+        nts = (2, 2, 1)
+        for s0 in srcs_opts(0):
+            for s1 in srcs_opts(1):
+                for s2 in srcs_opts(2):
+                    allsrc = s0 + s1 + s2
+                    if len(allsrc) > 3 or not all(x[0] == "L" or x[2] < nts[x[1]] for x in allsrc):
+                        continue
+                    used = [x[1] for x in allsrc if x[0] == "L"]
+                    if used and used[0] != 0:
+                        continue        # (the two leaves are interchangeable)
+                    P.append(Plan([(nts[0], s0), (nts[1], s1), (nts[2], s2)], 2 if 1 in used else (1 if used else 0)))
         P.append(Plan([(1, [L(0)]), (1, [Pr(0, 0)]), (1, [Pr(1, 0)]), (2, [Pr(2, 0), Pr(0, 0)])], 1))
+        P.append(Plan([(2, [L(0)]), (1, [L(1), Pr(0, 1)]), (1, [Pr(0, 0), L(1)]), (1, [Pr(1, 0), Pr(2, 0)])], 2))
     return P
 
 
@@ -1001,6 +1014,7 @@ def _worker(args):
     except Budget as e:
         note = "plan %s: %s" % (json.dumps(plan.describe()), e)
     stats["models"] = sorted(stats["models"])
+    stats["notes"] = sorted(stats.get("notes", []))
     return {"plan": plan.describe(), "stats": stats, "failures": failures, "note": note, "wall": time.time() - t0}
 
 
@@ -1021,6 +1035,7 @@ def run(tier):
             for k in ("queries", "solver_s", "forks", "paths", "plans"):
                 stats[k] += r["stats"][k]
             stats["models"] |= set(r["stats"]["models"])
+            stats.setdefault("notes", set()).update(r["stats"].get("notes", []))
             for f in r["failures"]:
                 if len(failures) < 8 and not any(g["what"] == f["what"] for g in failures):
                     failures.append(f)
@@ -1075,6 +1090,13 @@ def explore_cached(tier):
             pass
     failures, inconclusive, stats, samples, mir_s, wall = run(tier)
     stats["models"] = sorted(stats["models"])
+    stats["notes"] = sorted(stats.get("notes", []))
+    t1 = time.time()
+    nat_runs, nat_bad = validate_natively(tier)
+    stats["native_validation_builds"] = nat_runs
+    stats["native_validation_s"] = round(time.time() - t1, 1)
+    stats["native_disagreements"] = nat_bad[:5]
+    wall += time.time() - t1
     c = {"digest": dig, "failures": failures, "inconclusive": inconclusive, "stats": stats, "samples": samples, "mir_s": mir_s, "wall": wall, "cached": False}
     json.dump(c, open(cache, "w"), indent=1)
     return c
@@ -1096,8 +1118,22 @@ def enrich(plan):
     return {"leaves": leaves, "rules": rules}
 
 
+def pad(plan):
+    """a rules file cannot express a rule without sources (the bundle parser refuses an empty section), so for the
+    native run every such rule gets a leaf of its own"""
+    leaves = list(plan["leaves"])
+    rules = []
+    for r in plan["rules"]:
+        srcs = list(r["sources"])
+        if not srcs:
+            leaves.append("leaf%d" % len(leaves))
+            srcs.append(leaves[-1])
+        rules.append({"targets": r["targets"], "sources": srcs})
+    return {"leaves": leaves, "rules": rules}
+
+
 def case_text(f, policies, enriched=False):
-    plan = enrich(f["plan"]) if enriched else f["plan"]
+    plan = pad(enrich(f["plan"]) if enriched else f["plan"])
     tindex = {}
     for k, r in enumerate(plan["rules"]):
         for s_, t in enumerate(r["targets"]):
@@ -1151,6 +1187,47 @@ def native_replay(f, k):
     return False, "%d native builds under 64 scheduler policies showed nothing" % total
 
 
+def validate_natively(tier):
+    """the plans of the tier, natively: failure-free, every single and every pairwise placement of a missing leaf /
+    failing rule, under 3 scheduler policies (2 for the pairs), full history for the failure-free one.
+    -> (native builds run, [disagreements])"""
+    import subprocess
+    plans = plans_for("quick")
+    cases = []
+    for p_ in plans:
+        d = p_.describe()
+        sites = [("missing", j) for j in range(p_.nleaves)] + [("failing", k) for k in range(len(p_.nodes))]
+        placements = [[]] + [[x] for x in sites] + [[x, y] for i_, x in enumerate(sites) for y in sites[i_ + 1:]]
+        if tier == "quick":
+            placements = placements[:1 + len(sites)]
+        for pl in placements:
+            f = {"plan": d, "tag": "-", "outcomes": {"missing_leaves": [x[1] for x in pl if x[0] == "missing"], "failing_rules": [x[1] for x in pl if x[0] == "failing"]}}
+            cases.append((case_text(f, 3 if len(pl) < 2 else 2), d, pl))
+        cases.append((case_text({"plan": d, "tag": "-", "program": "clean", "outcomes": {}}, 2), d, "clean"))
+        cases.append((case_text({"plan": d, "tag": "C09", "outcomes": {}}, 2), d, "scope"))
+    path = os.path.join(WORK, "proto_validate.txt")
+    open(path, "w").write("\n---\n".join(c_[0] for c_ in cases))
+    gen.generate(os.path.join(VERIF, "replay"))
+    env = dict(os.environ)
+    env["CARGO_NET_OFFLINE"] = "true"
+    env["VERIF_PROTO_CASE_TXT"] = path
+    try:
+        p = subprocess.run(["cargo", "test", "--offline", "--quiet", "proto_case_from_env", "--", "--nocapture", "--test-threads", "1"],
+                           cwd=os.path.join(VERIF, "replay"), env=env, capture_output=True, text=True, timeout=2400)
+    except subprocess.TimeoutExpired:
+        return 0, ["native validation timed out"]
+    res = re.findall(r"PROTO-RESULT (\{.*\})", p.stdout)
+    if len(res) != len(cases):
+        return 0, ["native validation gave %d results for %d cases: %s" % (len(res), len(cases), (p.stdout + p.stderr)[-400:])]
+    runs, bad = 0, []
+    for r, (txt, d, pl) in zip(res, cases):
+        r = json.loads(r)
+        runs += r["runs"]
+        for v in r["violations"]:
+            bad.append({"plan": d, "placement": pl, "native": v})
+    return runs, bad
+
+
 def check(pid, tier, seed):
     import findings
     c = explore_cached(tier)
@@ -1158,6 +1235,8 @@ def check(pid, tier, seed):
     known = findings.load()
     lines, reported, known_hits = [], [], []
     inconclusive = list(c["inconclusive"])
+    for d_ in stats.get("native_disagreements", []):
+        inconclusive.append("native validation: the real build() misbehaves where the executor found nothing (outside its models, or a model is wrong): %s" % json.dumps(d_)[:400])
     exit_code = 0
     replayed = 0
     os.makedirs(os.path.join(VERIF, "replays"), exist_ok=True)
@@ -1201,12 +1280,15 @@ def check(pid, tier, seed):
             "rule": "one evaluation = one solver query (is this outcome of a worker possible under the path condition) or one completed path; distinct_nontrivial = completed paths of build()/clean(): each is one plan with one placement of missing leaves, failing rules, built / per-target resolution outcomes, on which the clauses below were evaluated",
             "clauses": CLAUSES.get(pid, ""),
             "samples": c["samples"],
-            "states": stats["paths"], "transitions": stats["forks"], "traces_validated_against_impl": replayed,
+            "states": stats["paths"], "transitions": stats["forks"], "traces_validated_against_impl": replayed + stats.get("native_validation_builds", 0),
+            "native_validation": "%d native build()/clean() runs of the tier's plans (failure-free, single and pairwise failure placements, histories, goal scope) under the baton scheduler agree with the executor's verdict (%.0fs)" % (stats.get("native_validation_builds", 0), stats.get("native_validation_s", 0)),
+            "protocol_notes": stats.get("notes", []),
+            "exploration_wall_s": round(c["wall"], 1), "exploration_from_cache": bool(c.get("cached")),
             "shapes_explored": stats["plans"], "forks": stats["forks"],
             "functions_encoded": funcs,
             "encoding": "rustc nightly -Zunpretty=mir of the regenerated copy of /repo/src -> lib/mirint.py interpretation of build(), clean(), ChannelPack::new, both worker closures, wait_for_sources_ticket and Packet over per-thread frame stacks -> z3 %s decides every outcome fork; MIR dump %.1fs%s" % (z3.get_version_string(), c["mir_s"], "; exploration reused from this tier's cache (same sources)" if c.get("cached") else ""),
             "bounds": "%d plans: %s; every placement of missing leaves and failing rules in each, every built / Up-to-date / Recovered / Downloaded outcome per target%s" % (
-                nplans, "1..3 rules with 1..2 targets, <= 2 leaves, chains, diamonds, fan-in, fan-out, disconnected" if tier == "quick" else "every 3-rule plan with 1..2 targets per rule, <= 2 leaves and <= 4 edges in topological order, plus a 4-rule chain-with-shortcut", "; thorough also lets every read_rule_history fail" if tier == "thorough" else ""),
+                nplans, "1..3 rules with 1..2 targets, <= 2 leaves, chains, diamonds, fan-in, fan-out, disconnected" if tier == "quick" else "the quick plans, every 3-rule plan (2, 2, 1 targets) with <= 2 leaves and <= 3 edges in topological order with every order of each rule's sources, and two 4-rule plans (chain with shortcut, double diamond)", "; thorough also lets every read_rule_history fail" if tier == "thorough" else ""),
             "library_models": stats["models"],
             "solver_queries": stats["queries"], "solver_time_s": round(stats["solver_s"], 2),
             "counterexamples_replayed_natively": replayed,
